@@ -341,6 +341,16 @@ def _replace_pattern_parts(pattern: str) -> str:
 
 def _compile_pattern_re(normalized_pattern: str) -> typ.Pattern[str]:
     escaped_pattern = normalized_pattern
+
+    # ^ and $ are anchors only as the very first/last character of a pattern
+    head = tail = ""
+    if escaped_pattern.startswith("^"):
+        head            = "^"
+        escaped_pattern = escaped_pattern[1:]
+    if escaped_pattern.endswith("$"):
+        tail            = "$"
+        escaped_pattern = escaped_pattern[:-1]
+
     for char, escaped in RE_PATTERN_ESCAPES:
         # [] braces are used for optional parts, such as [-TAG]/[-beta]
         # and need to be escaped manually.
@@ -349,7 +359,9 @@ def _compile_pattern_re(normalized_pattern: str) -> typ.Pattern[str]:
             # escape it so it is a literal in the re pattern
             escaped_pattern = escaped_pattern.replace(char, escaped)
 
-    pattern_str = _replace_pattern_parts(escaped_pattern)
+    escaped_pattern = escaped_pattern.replace("^", r"\^").replace("$", r"\$")
+
+    pattern_str = head + _replace_pattern_parts(escaped_pattern) + tail
     return re.compile(pattern_str)
 
 
